@@ -34,6 +34,12 @@ def points(form, kw):
         X = np.array([[real('x00'), real('x01')], [real('x10'), real('x11')], [real('x20'), real('x21')]], dtype=object)
         Y = np.array([[real('y00'), real('y01')], [real('y10'), real('y11')], [real('y20'), real('y21')]], dtype=object)
         return dict(xs=X, ys=Y), X, Y
+    if form == 'user-2d-fortran':
+        # the same kind of input stored column-major (X.T of a meshgrid, np.asfortranarray, DataFrame.values): entry [i, j] of every result
+        # still belongs to the point (xs[i, j], ys[i, j])
+        X = np.asfortranarray(np.array([[real('x00'), real('x01')], [real('x10'), real('x11')], [real('x20'), real('x21')]], dtype=object))
+        Y = np.asfortranarray(np.array([[real('y00'), real('y01')], [real('y10'), real('y11')], [real('y20'), real('y21')]], dtype=object))
+        return dict(xs=X, ys=Y), X, Y
     X = np.array([real('xa'), real('xb'), real('xc')], dtype=object)
     Y = np.array([real('ya'), real('yb'), real('yc')], dtype=object)
     return dict(xs=list(X), ys=list(Y)), X, Y
@@ -63,7 +69,7 @@ def cmp_array(name, got, kind, cname, pk, X, Y, nl, probs):
 
 def check_panel_fields(led, replay=None):
     it, calls = py_panel.mk()
-    for geom, form in itertools.product(('plate', 'cpanel'), ('default-grid', 'user-2d', 'list')):
+    for geom, form in itertools.product(('plate', 'cpanel'), ('default-grid', 'user-2d', 'user-2d-fortran', 'list')):
         for method, opts in (('uvw', {}), ('strain', {'NLterms': True}), ('strain', {'NLterms': False}),
                              ('stress', {'NLterms': True}), ('stress', {'NLterms': False}), ('stress', {'NLterms': False, 'F': 'given'})):
             func = PF + method
